@@ -43,6 +43,9 @@ QUICK = [
     _c('multicommodity_take', 'multicommodity', dict(T=3, take=(0, 3)), 1, 2),
     # variables that act in several steps and straddle the present/future boundary (orders, coarse intervals) are present-stage decisions
     _c('orders_straddle_boundary', 'orderbook', dict(T=4, orders=((0, 3, 2.0), (1, 4, -1.5), (1, 2, 1.0), (2, 4, 1.0))), 2, 1),
+    # an order without any step in the horizon keeps a variable without mapping row (neither present nor future)
+    _c('order_outside_the_horizon_listed_first', 'orderbook', dict(T=4, orders=((-3, -1, 1.0), (0, 3, 2.0), (2, 4, -1.5))), 2, 1),
+    _c('order_outside_the_horizon_listed_last', 'orderbook', dict(T=3, orders=((0, 2, 2.0), (1, 3, -1.5), (6, 8, 1.0))), 1, 2),
     _c('coarse_intervals_straddle_boundary', 'coarse', dict(T=4, kind='contract', ec=True), 1, 1),
     _c('coarse_transport_straddles_boundary', 'coarse', dict(T=4, kind='transport', eff=0.5), 3, 2),
 ]
@@ -260,8 +263,8 @@ def blocks(slp_lp, base_lp, T, boundary):
         for i in range(n):
             k = bk.get(i)
             if k is None:
-                m[i] = None
-                continue
+                m[i] = i               # a variable without mapping row (e.g. an order outside the horizon) belongs to no step: it stays one variable,
+                continue               # common to all scenarios, at its own position (the scenario copies are appended behind the original variables)
             if k in by_s.get(None, {}):
                 m[i] = by_s[None][k]            # present variable, common to all scenarios
             elif k in by_s.get(s, {}):
@@ -269,7 +272,7 @@ def blocks(slp_lp, base_lp, T, boundary):
             else:
                 m[i] = None
         maps.append(m)
-    present = set(by_s.get(None, {}).values())
+    present = set(by_s.get(None, {}).values()) | {i for i in range(n) if bk.get(i) is None}
     return maps, present, S
 
 
@@ -315,7 +318,7 @@ def run_slp(rec, seed, shape, kw, boundary, S, sf_form=None, fix_form=None):
             continue
         # present variables are exactly the variables of steps before the boundary
         bk = B.var_keys()
-        want_present = {maps[0][i] for i in range(B.n) if bk[i][2] < boundary}
+        want_present = {maps[0][i] for i in range(B.n) if i not in bk or bk[i][2] < boundary}
         okp = want_present == present
         rec.obligations.append(dict(name=P + '/present_common', verdict='unsat' if okp else 'sat', secs=0, form='struct'))
         rec.distinct.add(P + '/present_common')
@@ -326,6 +329,10 @@ def run_slp(rec, seed, shape, kw, boundary, S, sf_form=None, fix_form=None):
             Fx = lpsem.LP(opf)
             goals = []
             for i in range(B.n):
+                if i not in bk:
+                    # a variable without mapping row belongs to no step: a fixed time window leaves it as it is
+                    goals.append(('free[%d]' % i, z3.And(Fx.l[i] == B.l[i], Fx.u[i] == B.u[i]), dict(kind='fix_present', i=i, key=['(no mapping row)'])))
+                    continue
                 if bk[i][2] < boundary:
                     goals.append(('pinned[%d]' % i, z3.And(Fx.l[i] == zl(xbar[i]), Fx.u[i] == zl(xbar[i])), dict(kind='fix_present', i=i, key=[str(v) for v in bk[i]])))
                 else:
